@@ -167,7 +167,9 @@ pub fn gen_cfg(rng: &mut Rng, cheap: bool) -> WCfg {
     let all = codecs();
     let codec = *rng.pick(&all);
     let level = gen_level(rng, codec, cheap);
-    let block_size = match rng.below(12) {
+    let block_size = match if rng.chance(1, 40) { 99 } else { rng.below(12) } {
+        // extreme but legal: a block size no file ever reaches
+        99 => Some(*rng.pick(&[usize::MAX, usize::MAX - 1, usize::MAX / 2 + 1, 1usize << 62])),
         0 => None,
         1 => Some(0),
         2 => Some(1),
